@@ -28,13 +28,62 @@ def _risky(n, file):
     return None
 
 
+NEEDS = {            # mirror of JP.Guards.needs, used only to decide where a helper's conversion is accounted for
+    "int": ["ValueError"], "float": ["ValueError"], "re.compile": ["error", "OverflowError", "ValueError"], "re.fullmatch": ["error", "OverflowError", "ValueError"],
+    "re.search": ["error", "OverflowError", "ValueError"], "re.match": ["error", "OverflowError", "ValueError"], "json.loads": ["JSONDecodeError"],
+    "codecs.decode": ["UnicodeError"], "str.decode": ["UnicodeError"], "str.encode": ["UnicodeError"],
+}
+
+
+def _satisfied(callee, guards):
+    return "Exception" in guards or "BaseException" in guards or all(e in guards for e in NEEDS.get(callee, ["<unknown>"]))
+
+
+def _exception_constants(repo, f, tree, depth=0):
+    """module-level `NAME = (ExcA, ExcB, …)` tuples, also when imported from a sibling module: `except NAME:` catches those"""
+    out = {}
+    for n in tree.body:
+        if isinstance(n, ast.Assign) and len(n.targets) == 1 and isinstance(n.targets[0], ast.Name) and isinstance(n.value, ast.Tuple):
+            names = [(_name(e) or "?").split(".")[-1] for e in n.value.elts]
+            if names and all(x[:1].isupper() or x == "error" for x in names):
+                out[n.targets[0].id] = names
+        elif isinstance(n, ast.ImportFrom) and depth < 2 and n.module is not None:
+            base = os.path.dirname(os.path.join(repo, f))
+            for _ in range(max(n.level - 1, 0)):
+                base = os.path.dirname(base)
+            cand = os.path.join(base if n.level else os.path.join(repo), *n.module.split(".")) + ".py"
+            if os.path.exists(cand):
+                try:
+                    sub = _exception_constants(repo, os.path.relpath(cand, repo), ast.parse(open(cand, encoding="utf-8").read()), depth + 1)
+                except SyntaxError:
+                    sub = {}
+                for a in n.names:
+                    if a.name in sub:
+                        out[a.asname or a.name] = sub[a.name]
+    return out
+
+
 def guard_table(repo="/repo"):
     """[(file:Class.function, callee, 'Exc1|Exc2' sorted)] in source order; module- and class-level calls (constants such as
-    compiled patterns on fixed text) are not listed"""
+    compiled patterns on fixed text) are not listed. A conversion inside a private helper (`_name`) that the helper does not
+    guard itself is accounted for at the helper's call sites, with the guards in force there - what a function does through
+    `_to_index(token)` it does as surely as inline."""
     out = []
     for f in FILES:
         path = os.path.join(repo, f)
         tree = ast.parse(open(path, encoding="utf-8").read())
+        consts = _exception_constants(repo, f, tree)
+        rows, calls = [], {}
+
+        def handler_names(h):
+            if h.type is None:
+                return ["BaseException"]
+            elts = h.type.elts if isinstance(h.type, ast.Tuple) else [h.type]
+            names = []
+            for e in elts:
+                n = _name(e) or "?"
+                names += consts.get(n, [n.split(".")[-1]])
+            return names
 
         def visit(node, scope, guards):
             for ch in ast.iter_child_nodes(node):
@@ -45,12 +94,7 @@ def guard_table(repo="/repo"):
                 elif isinstance(ch, ast.Try):
                     hs = []
                     for h in ch.handlers:
-                        if h.type is None:
-                            hs.append("BaseException")
-                        elif isinstance(h.type, ast.Tuple):
-                            hs += [(_name(e) or "?").split(".")[-1] for e in h.type.elts]
-                        else:
-                            hs.append((_name(h.type) or "?").split(".")[-1])
+                        hs += handler_names(h)
                     for b in ch.body:
                         check(b, scope, (guards or []) + hs)
                         visit(b, scope, (guards or []) + hs)
@@ -64,10 +108,24 @@ def guard_table(repo="/repo"):
 
         def check(node, scope, guards):
             if isinstance(node, ast.Call) and guards is not None and "." in ("x." + scope if scope else ""):
-                r = _risky(_name(node.func), f)
+                n = _name(node.func)
+                r = _risky(n, f)
                 if r and any(c.isalpha() for c in scope) and scope and not scope[0].isupper() or (r and "." in scope):
-                    out.append((f"{os.path.basename(f)}:{scope}", r, "|".join(sorted(set(guards)))))
+                    rows.append((scope, r, sorted(set(guards))))
+                if n is not None and scope:
+                    calls.setdefault(n.split(".")[-1], []).append((scope, sorted(set(guards))))
         visit(tree, "", None)
+
+        def place(scope, callee, guards, depth, seen):
+            base = scope.split(".")[-1]
+            sites = [c for c in calls.get(base, []) if c[0] != scope]
+            if _satisfied(callee, guards) or not (base.startswith("_") and not base.startswith("__")) or not sites or depth >= 3 or scope in seen:
+                out.append((f"{os.path.basename(f)}:{scope}", callee, "|".join(guards)))
+                return
+            for s2, g2 in sites:
+                place(s2, callee, sorted(set(guards) | set(g2)), depth + 1, seen + (scope,))
+        for scope, callee, guards in rows:
+            place(scope, callee, guards, 0, ())
     return out
 
 
